@@ -26,6 +26,36 @@ def is_wire_replay(chk):
     return json.load(open(chk.replay)).get('replay', {}).get('script', {}).get('module') == 'BlockLoop'
 
 
+def is_cs_replay(chk):
+    import json
+    return 'tree' in json.load(open(chk.replay)).get('replay', {}).get('script', {})
+
+
+# headers messages in which a fork or an unconnected header follows headers that were placed in the window (a peer that is not well behaved)
+MIXED = [
+    ('fork-after-placed', 4, [1, 2, 3, 5]), ('fork-after-placed-2', 4, [2, 3, 4, 5]), ('unknown-after-placed', 4, [1, 2, 8]),
+    ('fork-then-more', 7, [1, 2, 3, 5, 6]), ('known-then-fork', 4, [1, 1, 2, 3, 5]),
+]
+
+
+def headers_batch(chk, thorough):
+    """C13 through the real headers handler: whatever a headers message contains, every block it leaves unfilled in the download
+    window has been asked for (formula RequestsInFlight on ChainSync traces, adversarial environment included)."""
+    import json
+    from . import chainsync as cs
+    if chk.replay:
+        scripts = [json.load(open(chk.replay))['replay']['script']]
+    else:
+        k = 3 if thorough else 1
+        scripts = cs.gen(chk, 'adversarial', 'Par7', 120 * k, 80, chk.seed * 100 + 61) + cs.gen(chk, 'racy', 'Par14', 30 * k, 140, chk.seed * 100 + 62)
+        chk0 = {'a': 'Check', 'm': {'t': 'hdr', 'hs': [], 'b': 0, 'f': 0}, 'r': {'t': 'gd', 'b': 0, 'loc': []}, 't': 0, 'k': False}
+        for name, ptip, hs in MIXED:
+            adv = dict(chk0, a='AdvMsg', m={'t': 'hdr', 'hs': hs, 'b': 0, 'f': 0})
+            scripts.append({'id': 'directed-' + name, 'steps': [chk0, adv], 'complete': False, 'adv': True, 'env': 'attack', 'tree': 'Par7', 'ptip': ptip})
+    res = cs.run(chk, scripts, {'RequestsInFlight', 'WindowOK', 'OrderedReq', 'NoPanic'}, [])
+    return {'scripts': len(scripts), 'lines': res['lines'], 'rejected': res['rejected'], 'false_instances': res['false_instances']}
+
+
 def wire_batch(chk, thorough):
     """C13 at the level of the wire (spec/BlockLoop.tla): the real headers handler, block handler and processBlocks loop; every
     getdata(block) queued for the connection is recorded.  Each block at most once, in chain order, at most W outstanding."""
@@ -144,6 +174,7 @@ def main(argv):
                   '(counterexample: %s)' % (r.violated, [s['a'] for s in scripts[0]['steps']]))
 
     wire = wire_batch(chk, thorough) if not chk.replay or is_wire_replay(chk) else None
+    inflight = headers_batch(chk, thorough) if not chk.replay or is_cs_replay(chk) else None
 
     distinct_nt = len({core.script_hash(s['steps']) for s in scripts if nontrivial(s)})
     maxwin = max(len(l['st']['req']) for l in lines)
@@ -160,7 +191,7 @@ def main(argv):
         'conformance_rejections': len(rej), 'false_formula_instances': len(bad),
         'model_cfg': 'W=3, 6-block tree, sizes {1,2}, MaxPend=2 (exhaustive)' if not thorough else 'W=4, 8-block tree (exhaustive)',
         'checker_cmd': 'tlc MC_BlockRequests / Props_BlockRequests / Trace_BlockRequests; MC_BlockLoop / Props_BlockLoop / Trace_BlockLoop',
-        'wire_batch': wire,
+        'wire_batch': wire, 'headers_batch': inflight,
         'exhaustive': False,
     }, assumptions=[
         'the projection reads blocksRequested/blocksToRequest/pendingBlockSize/lastSavedHash under state.lock (overlay accessor)',
